@@ -477,6 +477,11 @@ def c04(ctx, api):
             'characters raw inside each literal kind at 3 positions; every one-character escape' % (13 if thorough else 8), st, summ)
     st, summ = api['run_tlc_to_harness'](ctx, 'probe', 'GenProbe', cfg(constants={'Emit': 'TRUE', 'Prop': '"C04"'}), timeout=1500, harness_args=['-timeout', '30s'])
     acc.add('GenProbe: single inputs with a pinned outcome from the audit round (recorded findings, re-observed on every run)', st, summ)
+    tv = api['run_trace_validation'](ctx, 'mutation-traces', 6000 if thorough else 1500, ctx['seed'], corpus=False, mode='mutate')
+    acc.add_traces('trace validation: randomly grown well-formed expressions (depth <= 4) with one to three small edits each (a character deleted, inserted, '
+                   'replaced, doubled, neighbours swapped, the text cut short, a continuation appended, a closer dropped) run through the real Search; TLC '
+                   'tokenises and parses each text with the specification and checks the recorded outcome -- a syntax error and nothing else for a text '
+                   'outside the grammar, the value or fault of the other expression for one inside it', tv)
     return acc.result('every concatenation of at most k lexemes of each alphabet is compiled by the real library (the harness '
                       'enumerates them itself) and compared with the static outcome of the specification, which TLC computed for '
                       'the same enumeration (TLC prints only the texts that are not plain syntax errors); a case is non-trivial '
